@@ -343,7 +343,7 @@ class C10(ModelCheck):
     assumptions = ["the file watcher is not exercised (reload is requested explicitly)", "a module that nobody imports any more but whose file is unchanged stays loaded (documented: other contexts are left untouched)"]
 
     def n_random(self, tier):
-        return {"quick": 640, "thorough": 24000}[tier]
+        return {"quick": 1280, "thorough": 24000}[tier]
 
     def gen(self, R):
         return gen(R)
